@@ -210,17 +210,27 @@ Proof.
     rewrite (IH _ t' eq_refl). now rewrite app_assoc.
 Qed.
 
+Lemma letter_utf8 name : (match ps_letter name with Some _ => true | None => false end) = true -> utf8_valid name = true.
+Proof.
+  unfold ps_letter.
+  destruct (bytes_eqb name (bs ":method")) eqn:E1; [apply bytes_eqb_eq in E1; now subst|].
+  destruct (bytes_eqb name (bs ":authority")) eqn:E2; [apply bytes_eqb_eq in E2; now subst|].
+  destruct (bytes_eqb name (bs ":scheme")) eqn:E3; [apply bytes_eqb_eq in E3; now subst|].
+  destruct (bytes_eqb name (bs ":path")) eqn:E4; [apply bytes_eqb_eq in E4; now subst|discriminate].
+Qed.
+
+(* the request pseudo-header names are text, so dropping headers with non-UTF-8 names loses none of them *)
 Lemma filter_filter_pseudo (hs : list header) :
-  existsb (fun h : bytes * bytes => negb (utf8_valid (fst h) && utf8_valid (snd h))) (filter is_pseudo hs) = false ->
+  forallb (fun h : bytes * bytes => match ps_letter (fst h) with Some _ => true | None => false end) (filter is_pseudo hs) = true ->
   filter (fun h : bytes * bytes => starts_with_colon (fst h))
-         (filter (fun h : bytes * bytes => utf8_valid (fst h) && utf8_valid (snd h)) hs) = filter is_pseudo hs.
+         (filter (fun h : bytes * bytes => utf8_valid (fst h)) hs) = filter is_pseudo hs.
 Proof.
   induction hs as [|h r IH]; [reflexivity|].
   cbn [filter]. destruct (is_pseudo h) eqn:Ep.
-  - cbn [existsb]. intros H. apply orb_false_iff in H. destruct H as [Hu Hr].
-    apply negb_false_iff in Hu. rewrite Hu. cbn [filter]. rewrite starts_colon_is_pseudo, Ep.
+  - cbn [forallb]. intros H. apply andb_true_iff in H. destruct H as [Hu Hr].
+    rewrite (letter_utf8 _ Hu). cbn [filter]. rewrite starts_colon_is_pseudo, Ep.
     f_equal. now apply IH.
-  - intros H. destruct (utf8_valid (fst h) && utf8_valid (snd h));
+  - intros H. destruct (utf8_valid (fst h));
       [cbn [filter]; rewrite starts_colon_is_pseudo, Ep|]; now apply IH.
 Qed.
 
@@ -254,20 +264,20 @@ Proof.
 Qed.
 
 Lemma ps_model_spec frames :
-  block_complete frames = true -> k_nonutf8 frames = false ->
+  block_complete frames = true ->
   ps_wf_list (filter is_pseudo (first_block_headers frames)) = true ->
   exists ps, extract_pseudo_header_order frames = Val ps /\
              join (bs ",") (map pseudo_show ps) = PS_part frames.
 Proof.
-  unfold block_complete, k_nonutf8, extract_pseudo_header_order, PS_part, first_block_headers, first_block.
+  unfold block_complete, extract_pseudo_header_order, PS_part, first_block_headers, first_block.
   rewrite find_first_headers.
   destruct (first_headers frames) as [[f r]|].
-  2:{ intros _ _ _. exists []. split; reflexivity. }
+  2:{ intros _ _. exists []. split; reflexivity. }
   rewrite headers_fragment_spec.
   destruct (headers_block_fragment f) as [frag|].
-  2:{ intros _ _ _. exists []. split; reflexivity. }
+  2:{ intros _ _. exists []. split; reflexivity. }
   change FLAG_END_HEADERS with (2 ^ END_HEADERS_bit). rewrite has_flag_testbit. unfold flag.
-  intros K2 K4 Hwf.
+  intros K2 Hwf.
   assert (Hblock : exists block,
             (if N.testbit (f_flags f) END_HEADERS_bit then frag else collect_continuations (f_stream f) r frag) = block /\
             (if N.testbit (f_flags f) END_HEADERS_bit then Some frag
@@ -280,7 +290,7 @@ Proof.
   pose proof (hpack_decode_no_panic block) as Hnp.
   destruct (hpack_decode dt_new block) as [hs t| | |].
   - eexists. split; [reflexivity|].
-    rewrite (filter_filter_pseudo hs K4).
+    rewrite (filter_filter_pseudo hs Hwf).
     now rewrite letters_model.
   - exists []. split; reflexivity.
   - congruence.
@@ -303,8 +313,8 @@ Theorem akamai_model_spec frames :
   extract_akamai_fingerprint frames = Val (fp frames).
 Proof.
   intros Hwf Hk. apply wf_frames_split in Hwf. destruct Hwf as (Hwu & Hpr & Hps & K2).
-  unfold known in Hk. rewrite !orb_false_iff in Hk. destruct Hk as [K1 K4].
-  destruct (ps_model_spec frames K2 K4 Hps) as (ps & Eps & Hjoin).
+  unfold known in Hk. rename Hk into K1.
+  destruct (ps_model_spec frames K2 Hps) as (ps & Eps & Hjoin).
   unfold extract_akamai_fingerprint, fp. rewrite Eps.
   unfold extract_settings_parameters, first_settings, k_empty_settings in *.
   change is_settings0 with settings_frame.
@@ -526,7 +536,7 @@ Definition w_headers_padded : list frame :=
   [mkf 4 0 0 (hx "000300000064"); mkf 1 12 1 (hx "02" ++ hx "82418a089d5c0b8170dc780f038784" ++ hx "0000")].
 Definition w_continued : list frame :=
   [mkf 4 0 0 (hx "000300000064"); mkf 1 0 1 (hx "82"); mkf 9 4 1 (hx "418a089d5c0b8170dc780f038784")].
-(* K2: :path with a value that is not UTF-8 (literal, 2f ff) between :method and :scheme *)
+(* former K2: :path with a value that is not UTF-8 (literal, 2f ff) between :method and :scheme *)
 Definition w_nonutf8 : list frame :=
   [mkf 4 0 0 (hx "000300000064"); mkf 1 4 1 (hx "8204022fff87")].
 
@@ -546,10 +556,11 @@ Lemma former_witnesses_agree :
                         extract_akamai_fingerprint frames = Val (Some (bs "3:100|00|0|m,a,s,p")))
          [w_headers_priority; w_headers_padded; w_continued].
 Proof. repeat constructor; vm_compute; reflexivity. Qed.
-Lemma Known_nonutf8_refuted :
-  exists frames, wf_frames frames = true /\ k_nonutf8 frames = true /\
-                 extract_akamai_fingerprint frames <> Val (fp frames).
-Proof. exists w_nonutf8. vm_compute. repeat split; discriminate. Qed.
+(* the former witness of the non-UTF-8 class (value /\xff of :path) is in the domain and agrees now *)
+Lemma nonutf8_former_witness_agrees :
+  wf_frames w_nonutf8 = true /\ known w_nonutf8 = false /\
+  extract_akamai_fingerprint w_nonutf8 = Val (fp w_nonutf8) /\ fp w_nonutf8 = Some (bs "3:100|00|0|m,p,s").
+Proof. vm_compute. repeat split; reflexivity. Qed.
 
 (* the hypotheses of the two property theorems are satisfiable on a non-trivial input:
    SETTINGS, WINDOW_UPDATE (reserved bit set), two PRIORITY frames, HEADERS m,a,s,p *)
